@@ -66,5 +66,9 @@ def check (cfg : Cfg) (s : St) : List String :=
         && incFrom none (queue s) && ltAll inc.last (queue s)
         && (inc.armed || (queue s).all fun x => decide (x.off < s.fetchOffset)))
   ++ bad "dl" (!dl.bad && s.retryDelay == C14.delayAt cfg.retryInit cfg.retryMax dl.k)
+  -- candidates of session 5 (C13: no crash, shutdown never stuck)
+  ++ bad "lpCommit" (s.commitDs.isEmpty || s.lastProcessed.isSome)
+  ++ bad "dsConv" (s.commitDs.isEmpty || s.commitReq.isSome || (match s.commitCall with | .pending _ _ _ => true | _ => false))
+  ++ bad "shutStuck" (!s.shutdownD || s.proc.isSome || s.commitReq.isSome || (match s.commitCall with | .pending _ _ _ => true | _ => false))
 
 end Afkak.Consumer.InvTest
